@@ -505,6 +505,14 @@ def run_shard(shard, rec):
                      "_lambda", ".if", "-class", "__import", "<in", "^None", "_0", "*1f", "_", "__", "^", "True",
                      "not^", "f.g", "is", "_is", "dagrt.dt", "dagrt_T"])) for _ in range(rng.randint(0, 4))]
                 lk += fn
+                # (names that keep at least one ASCII letter when sanitised: a function whose name sanitises to nothing
+                # gets the generator's fallback name, see the bare-name pool above)
+                plain = [n for n in names if "<" not in n and n.isidentifier() and any(
+                    c.isascii() and c.isalpha() for c in n) and not n.lower().startswith(("dagrt", "drtf"))]
+                if plain and i % 4 == 1:
+                    # a user function registered under the very name of a per-step variable (two name spaces)
+                    lk += [("func", rng.choice(plain))]
+                    rec.count("sets_with_function_named_like_a_variable")
                 # (every third set: a reference counter for EVERY name -- counters of confusable names must differ too)
                 nrc = len(names) if i % 3 == 0 else min(len(names), rng.randint(0, 3))
                 lk += [("refcnt", n) for n in rng.sample(names, nrc)]
